@@ -1061,6 +1061,7 @@ func genHistory(t *rapid.T, p Profile, params ctlsim.Params, kinds []string, max
 
 // genHistoryX optionally adds the rich extras (CA secrets, pods of the endpoints, tcp ConfigMap) to the initial world.
 func genHistoryX(t *rapid.T, p Profile, params ctlsim.Params, kinds []string, maxBatches, maxOps int, extras bool) HistCase {
+	avoidParams = params
 	g := newG(t, p)
 	g.genWorld()
 	if extras {
@@ -1143,6 +1144,8 @@ func richProfile() Profile {
 		{Name: "passthrough", Keys: []annChoice{{"ssl-passthrough", []string{"true"}}}, Root: true},
 		{Name: "bluegreen", Keys: []annChoice{{"blue-green-deploy", []string{"group=blue=1,group=green=3"}}, {"blue-green-header", []string{"X-Server:group"}}}},
 		{Name: "server-id", Keys: []annChoice{{"assign-backend-server-id", []string{"true"}}, {"backend-server-naming", []string{"pod", "ip"}}}},
+		{Name: "cookie-pod-uid", Keys: []annChoice{{"affinity", []string{"cookie"}}, {"session-cookie-preserve", []string{"true"}}, {"session-cookie-dynamic", []string{"false"}},
+			{"session-cookie-value-strategy", []string{"pod-uid"}}, {"slots-min-free", []string{"2", "4"}}}},
 	}
 	p.BundlePct = 55
 	return p
